@@ -320,6 +320,10 @@ def run_case(case):
             if t.shape != s.shape or not torch.equal(t.detach(), s):
                 r.fail('argument_mutated', '%s modified one of its argument tensors' % what)
                 return False
+        if xf.ARG_MUTATIONS:
+            r.fail('argument_list_mutated', '%s: %s' % (what, xf.ARG_MUTATIONS[0]))
+            del xf.ARG_MUTATIONS[:]
+            return False
         inst.shapes.add(tuple(cfg['size']))
         used_cfgs.add(ci)
         if not _same(outs, gold, r, what):
